@@ -37,9 +37,27 @@ fn g_on_dealloc(p: *mut u8, size: usize) {
     }
 }
 
+// ---- secret scan: while armed on this thread, EVERY block released by this thread is searched for a byte pattern ----
+thread_local! {
+    static SCAN_ON: std::cell::Cell<bool> = const { std::cell::Cell::new(false) };
+    static SCAN_PAT: std::cell::Cell<[u8; 30]> = const { std::cell::Cell::new([0u8; 30]) };
+    static SCAN_HITS: std::cell::Cell<(usize, usize, usize)> = const { std::cell::Cell::new((0, 0, 0)) };     // (hits, address of the first, its size)
+}
+/// arm the scan with a 30-byte pattern (bytes 1..31 of a key: what clamping leaves alone); no allocation
+pub fn scan_arm(pattern: &[u8]) { let mut p = [0u8; 30]; p.copy_from_slice(&pattern[..30]); SCAN_PAT.with(|c| c.set(p)); SCAN_HITS.with(|c| c.set((0, 0, 0))); SCAN_ON.with(|c| c.set(true)); }
+/// disarm; returns (number of released blocks that held the pattern, address and size of the first)
+pub fn scan_disarm() -> (usize, usize, usize) { SCAN_ON.with(|c| c.set(false)); SCAN_HITS.with(|c| c.replace((0, 0, 0))) }
+fn scan_on_dealloc(p: *mut u8, size: usize) {
+    if !SCAN_ON.try_with(|c| c.get()).unwrap_or(false) || size < 30 || size > (1 << 20) { return; }
+    let pat = SCAN_PAT.try_with(|c| c.get()).unwrap_or([0u8; 30]);
+    let block = unsafe { std::slice::from_raw_parts(p, size) };
+    if block.windows(30).any(|w| w == pat) { let _ = SCAN_HITS.try_with(|c| { let (n, a, s) = c.get(); c.set(if n == 0 { (1, p as usize, size) } else { (n + 1, a, s) }); }); }
+}
+
 /// called by the allocator before a block is handed back
 pub fn on_dealloc(p: *mut u8, size: usize) {
     g_on_dealloc(p, size);
+    scan_on_dealloc(p, size);
     let busy = BUSY.try_with(|b| b.get()).unwrap_or(true);
     if busy { return; }
     let _ = BUSY.try_with(|b| b.set(true));
